@@ -13,6 +13,29 @@ CHECKS = {
          "DESIGN.md §3 C02"),
 }
 
+CHECKS.update({
+ "C01": ("runtime monitor in worker sub-processes (panic capture, abort attribution, bytes^2-scaled two-stage hang watchdog, result-map oracle); thorough adds ASan, valgrind memcheck and a Miri micro-slice on the same workload",
+         "Held on every case executed: ~60k file sets quick / ~1M thorough natively (character soups, token soups, mutated documents, systematic injection at every character position, size stress to 64 KiB), plus ~30k under ASan, ~5k under memcheck and a handful under Miri in thorough. Right level: totality over all UTF-8 strings cannot be enumerated; hostile generators + process isolation observe exactly the refuting events (panic, abort, hang, wrong key set).",
+         "Trusted: OS process isolation; the watchdog rule (slow is not hung: two expiries, second at 5x a bytes^2-scaled budget); sanitizer tool failure = inconclusive.",
+         "DESIGN.md §3 C01"),
+ "C03": ("runtime monitor: differential oracle against a reference lexer + Earley recognizer over bounded-exhaustive slot substitution, random token mutation and lexical cases",
+         "Held on every text judged: all token-kind sequences of length <= 2 in 22 syntactic slots (exhaustive, ~26k) + 25k mutated documents + ~10k lexical cases quick; length 3 on 8 slots (~315k) + 800k random in thorough. Agreement with the reference recognizer must be total; evidence holds the agreement matrix.",
+         "Trusted: R-lex and the CFG transcription (earley.rs); alphabet restricted to characters where R-lex is exact; hooks H1.",
+         "DESIGN.md §3 C03"),
+ "C04": ("runtime monitor: exact range expectations from the generator's token table + independent line/column oracle + generic nesting/well-formedness walker + R-lex/R-earley oracle for syntax-diagnostic positions",
+         "Held on every range observed (~5M ranges quick): every name/full range of generated documents in all layouts compared with the token table; every range in trees, diagnostics and related infos of malformed inputs checked for well-formedness, nesting and line/column agreement; first syntax error compared with the first token the reference grammar cannot accept.",
+         "Trusted: token table of the renderer; unicode-segmentation for grapheme clusters on complex lines; leniencies stated in the evidence assumptions.",
+         "DESIGN.md §3 C04"),
+ "C14": ("runtime monitor: generated items with one reference-rejected garbage member spliced at every position; sibling-subsequence, error-presence and error-locality oracle",
+         "Held on ~40k (quick) / ~600k (thorough) garbage members across interface / parcelable / enum and all positions, except the recorded known finding K2 (enum + unclosed annotation list) which is matched by its exact signature.",
+         "Trusted: R-earley to decide that the garbage is not a member and whether `G ,` is a viable prefix (K2 signature); projection of C02.",
+         "DESIGN.md §3 C14"),
+ "C20": ("runtime monitor: hook H2 records the parser's expectation list; message text scanned for terminal names and compared as sets at generated error points",
+         "Held on ~80k (quick) / ~1M (thorough) (record, message) pairs with expectation sets of size 0-14, except the recorded known finding K1 (second-to-last entry dropped when >= 3) matched by its exact signature; anything else is a violation.",
+         "Trusted: hook H2 (records the vector before formatting); the scanner for the grammar's 34 terminal names.",
+         "DESIGN.md §3 C20"),
+})
+
 NOT_YET = {}
 ALL = ["C%02d" % i for i in range(1, 21)]
 
